@@ -449,3 +449,430 @@ Proof.
 Qed.
 
 End Steps.
+
+(* ------------------------------------------------------------------ traversal lists *)
+
+Lemma perm_pre : forall t, Permutation (preorder t) (inorder t).
+Proof.
+  induction t as [|l IHl x r IHr]; simpl; [constructor|].
+  apply Permutation_cons_app. apply Permutation_app; assumption.
+Qed.
+
+Lemma perm_post : forall t, Permutation (postorder t) (inorder t).
+Proof.
+  induction t as [|l IHl x r IHr]; simpl; [constructor|].
+  apply Permutation_app; [assumption|].
+  eapply Permutation_trans; [apply Permutation_sym, Permutation_cons_append|].
+  constructor. assumption.
+Qed.
+
+Lemma nodup_pre : forall t, NoDup (ids t) -> NoDup (preorder t).
+Proof. intros t H. eapply Permutation_NoDup; [apply Permutation_sym, perm_pre|exact H]. Qed.
+
+Lemma nodup_post : forall t, NoDup (ids t) -> NoDup (postorder t).
+Proof. intros t H. eapply Permutation_NoDup; [apply Permutation_sym, perm_post|exact H]. Qed.
+
+Lemma length_pre : forall t, length (preorder t) = size t.
+Proof. intros t. rewrite (Permutation_length (perm_pre t)). apply size_length_ids. Qed.
+
+Lemma length_post : forall t, length (postorder t) = size t.
+Proof. intros t. rewrite (Permutation_length (perm_post t)). apply size_length_ids. Qed.
+
+Lemma in_pre_ids : forall t x, In x (preorder t) -> In x (ids t).
+Proof. intros t x H. eapply Permutation_in; [apply perm_pre|exact H]. Qed.
+
+Lemma in_post_ids : forall t x, In x (postorder t) -> In x (ids t).
+Proof. intros t x H. eapply Permutation_in; [apply perm_post|exact H]. Qed.
+
+Lemma in_middle : forall (A : Type) (a b : list A) (x : A), In x (a ++ x :: b).
+Proof. intros. apply in_or_app. right. left. reflexivity. Qed.
+
+(* ------------------------------------------------------------------ every step returns the successor *)
+
+Section Succ.
+Variable rd : id -> option node.
+Variable t : tree.
+Variable fuel : nat.
+Hypothesis HR : Repr rd None t.
+Hypothesis Hnd : NoDup (ids t).
+Hypothesis Hf : size t < fuel.
+
+Lemma next_succ : forall pre x post,
+  inorder t = pre ++ x :: post -> next rd fuel x = Ok (hd_error post).
+Proof.
+  intros pre x post E0.
+  assert (Hin : In x (ids t)) by (unfold ids; rewrite E0; apply in_middle).
+  destruct (in_ids_plug _ _ Hin) as [c [l [r E1]]].
+  rewrite E1 in HR, Hnd, Hf.
+  rewrite (next_pos rd c l x r fuel HR Hnd Hf).
+  assert (E2 : inorder t = (bef_in c ++ inorder l) ++ x :: (inorder r ++ aft_in c)).
+  { rewrite E1, inorder_plug. simpl. repeat (rewrite <- app_assoc; simpl). reflexivity. }
+  unfold ids in Hnd. rewrite <- E1 in Hnd. rewrite E2 in Hnd. rewrite E2 in E0.
+  destruct (split_unique _ _ _ _ _ _ Hnd E0) as [_ E3]. rewrite E3. reflexivity.
+Qed.
+
+Lemma pre_next_succ : forall pre x post,
+  preorder t = pre ++ x :: post -> pre_next rd fuel x = Ok (hd_error post).
+Proof.
+  intros pre x post E0.
+  assert (Hin : In x (ids t)) by (apply in_pre_ids; rewrite E0; apply in_middle).
+  destruct (in_ids_plug _ _ Hin) as [c [l [r E1]]].
+  pose proof (nodup_pre _ Hnd) as Hnp.
+  rewrite E1 in HR, Hnd, Hf.
+  rewrite (pre_next_pos rd c l x r fuel HR Hnd Hf).
+  assert (E2 : preorder t = bef_pre c ++ x :: (preorder l ++ preorder r ++ aft_pre c)).
+  { rewrite E1, preorder_plug. simpl. repeat (rewrite <- app_assoc; simpl). reflexivity. }
+  rewrite E2 in Hnp. rewrite E2 in E0.
+  destruct (split_unique _ _ _ _ _ _ Hnp E0) as [_ E3]. rewrite E3. reflexivity.
+Qed.
+
+Lemma post_next_succ : forall pre x post,
+  postorder t = pre ++ x :: post -> post_next rd fuel x = Ok (hd_error post).
+Proof.
+  intros pre x post E0.
+  assert (Hin : In x (ids t)) by (apply in_post_ids; rewrite E0; apply in_middle).
+  destruct (in_ids_plug _ _ Hin) as [c [l [r E1]]].
+  pose proof (nodup_post _ Hnd) as Hnp.
+  rewrite E1 in HR, Hnd, Hf.
+  rewrite (post_next_pos rd c (T l x r) x fuel HR Hnd eq_refl Hf).
+  assert (E2 : postorder t = (bef_post c ++ postorder l ++ postorder r) ++ x :: aft_post c).
+  { rewrite E1, postorder_plug. simpl. repeat (rewrite <- app_assoc; simpl). reflexivity. }
+  rewrite E2 in Hnp. rewrite E2 in E0.
+  destruct (split_unique _ _ _ _ _ _ Hnp E0) as [_ E3]. rewrite E3. reflexivity.
+Qed.
+
+End Succ.
+
+(* ------------------------------------------------------------------ the foreach protocol *)
+
+Lemma iterate_list : forall (step : id -> res (option id)) (L : list id),
+  (forall pre x post, L = pre ++ x :: post -> step x = Ok (hd_error post)) ->
+  forall post pre fuel, L = pre ++ post -> length post < fuel ->
+  iterate step fuel (hd_error post) = Ok post.
+Proof.
+  intros step L Hstep. induction post as [|x post IH]; intros pre fuel E0 Hf.
+  - destruct fuel; reflexivity.
+  - simpl in Hf. destruct fuel as [|k]; [lia|]. simpl.
+    rewrite (Hstep pre x post E0).
+    rewrite (IH (pre ++ [x]) k); [reflexivity| |lia].
+    rewrite <- app_assoc. simpl. assumption.
+Qed.
+
+(* ------------------------------------------------------------------ mirror *)
+
+Definition swapn (n : node) : node := mkNode (nr n) (nl n) (np n).
+Definition mrd (rd : id -> option node) (x : id) : option node := option_map swapn (rd x).
+
+Lemma inorder_mirror : forall t, inorder (mirror t) = rev (inorder t).
+Proof.
+  induction t as [|l IHl x r IHr]; simpl; [reflexivity|].
+  rewrite rev_app_distr. simpl. rewrite IHl, IHr, <- app_assoc. reflexivity.
+Qed.
+
+Lemma preorder_mirror : forall t, preorder (mirror t) = preorder_rl t.
+Proof. induction t as [|l IHl x r IHr]; simpl; [reflexivity|]. rewrite IHl, IHr. reflexivity. Qed.
+
+Lemma postorder_mirror : forall t, postorder (mirror t) = postorder_rl t.
+Proof. induction t as [|l IHl x r IHr]; simpl; [reflexivity|]. rewrite IHl, IHr. reflexivity. Qed.
+
+Lemma size_mirror : forall t, size (mirror t) = size t.
+Proof. induction t as [|l IHl x r IHr]; simpl; [reflexivity|]. lia. Qed.
+
+Lemma root_mirror : forall t, root_id (mirror t) = root_id t.
+Proof. intros [|l x r]; reflexivity. Qed.
+
+Lemma nodup_mirror : forall t, NoDup (ids t) -> NoDup (ids (mirror t)).
+Proof. unfold ids. intros t H. rewrite inorder_mirror. apply NoDup_rev. assumption. Qed.
+
+Lemma repr_mirror : forall rd t p, Repr rd p t -> Repr (mrd rd) p (mirror t).
+Proof.
+  induction t as [|l IHl x r IHr]; intros p H; simpl in *; [exact I|].
+  destruct H as [Hx [Hl Hr]]. split.
+  - unfold mrd. rewrite Hx. simpl. unfold swapn. simpl. rewrite !root_mirror. reflexivity.
+  - split; [apply IHr|apply IHl]; assumption.
+Qed.
+
+(* the documented mirrored orders really are mirror images *)
+Lemma preorder_rl_rev_post : forall t, preorder_rl t = rev (postorder t).
+Proof.
+  induction t as [|l IHl x r IHr]; simpl; [reflexivity|].
+  rewrite !rev_app_distr. simpl. rewrite IHl, IHr. reflexivity.
+Qed.
+
+Lemma postorder_rl_rev_pre : forall t, postorder_rl t = rev (preorder t).
+Proof.
+  induction t as [|l IHl x r IHr]; simpl; [reflexivity|].
+  rewrite rev_app_distr. rewrite IHl, IHr. rewrite <- app_assoc. reflexivity.
+Qed.
+
+Section MirrorFns.
+Variable rd : id -> option node.
+
+Lemma walk_mirror : forall fuel x, walk (mrd rd) nl fuel x = walk rd nr fuel x.
+Proof.
+  induction fuel as [|k IH]; intros x; simpl; [reflexivity|].
+  unfold mrd at 1. destruct (rd x) as [n|]; simpl; [|reflexivity].
+  destruct (nr n); [apply IH|reflexivity].
+Qed.
+
+Lemma climb_io_mirror : forall fuel x, climb_io (mrd rd) nl fuel x = climb_io rd nr fuel x.
+Proof.
+  induction fuel as [|k IH]; intros x; simpl; [reflexivity|].
+  unfold mrd at 1. destruct (rd x) as [n|]; simpl; [|reflexivity].
+  destruct (np n) as [p|]; [|reflexivity].
+  unfold mrd at 1. destruct (rd p) as [pn|]; simpl; [|reflexivity].
+  destruct (ptr_is (nr pn) x); [reflexivity|apply IH].
+Qed.
+
+Lemma climb_pre_mirror : forall fuel x, climb_pre (mrd rd) nr fuel x = climb_pre rd nl fuel x.
+Proof.
+  induction fuel as [|k IH]; intros x; simpl; [reflexivity|].
+  unfold mrd at 1. destruct (rd x) as [n|]; simpl; [|reflexivity].
+  destruct (np n) as [p|]; [|reflexivity].
+  unfold mrd at 1. destruct (rd p) as [pn|]; simpl; [|reflexivity].
+  destruct (nl pn) as [c|]; [|apply IH].
+  destruct (Pos.eqb c x); [apply IH|reflexivity].
+Qed.
+
+Lemma post_descent_mirror : forall fuel x,
+  post_descent (mrd rd) nl nr fuel x = post_descent rd nr nl fuel x.
+Proof.
+  induction fuel as [|k IH]; intros x; simpl; [reflexivity|].
+  unfold mrd at 1. destruct (rd x) as [n|]; simpl; [|reflexivity].
+  destruct (nr n); [apply IH|]. destruct (nl n); [apply IH|reflexivity].
+Qed.
+
+Lemma prev_mirror : forall fuel x, prev rd fuel x = next (mrd rd) fuel x.
+Proof.
+  intros fuel x. unfold prev, next. unfold mrd at 1. destruct (rd x) as [n|]; simpl; [|reflexivity].
+  destruct (nl n); [rewrite walk_mirror|rewrite climb_io_mirror]; reflexivity.
+Qed.
+
+Lemma pre_prev_mirror : forall fuel x, pre_prev rd fuel x = pre_next (mrd rd) fuel x.
+Proof.
+  intros fuel x. unfold pre_prev, pre_next. unfold mrd at 1. destruct (rd x) as [n|]; simpl; [|reflexivity].
+  destruct (nr n); [reflexivity|]. destruct (nl n); [reflexivity|].
+  rewrite climb_pre_mirror. reflexivity.
+Qed.
+
+Lemma post_prev_mirror : forall fuel x, post_prev rd fuel x = post_next (mrd rd) fuel x.
+Proof.
+  intros fuel x. unfold post_prev, post_next. unfold mrd at 1. destruct (rd x) as [n|]; simpl; [|reflexivity].
+  destruct (np n) as [p|]; [|reflexivity].
+  unfold mrd at 1. destruct (rd p) as [pn|]; simpl; [|reflexivity].
+  destruct (nl pn) as [c|]; [|reflexivity].
+  destruct (Pos.eqb c x); [reflexivity|]. rewrite post_descent_mirror. reflexivity.
+Qed.
+
+Lemma tail_mirror : forall fuel root, tail rd fuel root = head (mrd rd) fuel root.
+Proof. intros fuel [x|]; simpl; [rewrite walk_mirror|]; reflexivity. Qed.
+
+Lemma post_tail_mirror : forall fuel root, post_tail rd fuel root = post_head (mrd rd) fuel root.
+Proof. intros fuel [x|]; simpl; [rewrite post_descent_mirror|]; reflexivity. Qed.
+
+Lemma iterate_ext : forall (f g : id -> res (option id)), (forall x, f x = g x) ->
+  forall fuel cur, iterate f fuel cur = iterate g fuel cur.
+Proof.
+  intros f g H. induction fuel as [|k IH]; intros [x|]; simpl; try reflexivity.
+  rewrite H. destruct (g x); try reflexivity. rewrite IH. reflexivity.
+Qed.
+
+End MirrorFns.
+
+(* ------------------------------------------------------------------ the six iterations *)
+
+Lemma foreach_reverse_mirror : forall rd fuel root,
+  foreach_reverse rd fuel root = foreach (mrd rd) fuel root.
+Proof.
+  intros. unfold foreach_reverse, foreach, bind_iter. rewrite tail_mirror.
+  destruct (head (mrd rd) fuel root); try reflexivity.
+  apply iterate_ext. intros x. apply prev_mirror.
+Qed.
+
+Lemma pre_foreach_reverse_mirror : forall rd fuel root,
+  pre_foreach_reverse rd fuel root = pre_foreach (mrd rd) fuel root.
+Proof.
+  intros. unfold pre_foreach_reverse, pre_foreach, bind_iter.
+  apply iterate_ext. intros x. apply pre_prev_mirror.
+Qed.
+
+Lemma post_foreach_reverse_mirror : forall rd fuel root,
+  post_foreach_reverse rd fuel root = post_foreach (mrd rd) fuel root.
+Proof.
+  intros. unfold post_foreach_reverse, post_foreach, bind_iter. rewrite post_tail_mirror.
+  destruct (post_head (mrd rd) fuel root); try reflexivity.
+  apply iterate_ext. intros x. apply post_prev_mirror.
+Qed.
+
+Section Forward.
+Variable rd : id -> option node.
+Variable t : tree.
+Variable fuel : nat.
+Hypothesis HR : Repr rd None t.
+Hypothesis Hnd : NoDup (ids t).
+Hypothesis Hf : size t < fuel.
+
+Lemma foreach_fwd : foreach rd fuel (root_id t) = Ok (inorder t).
+Proof.
+  unfold foreach, bind_iter. rewrite (head_first rd t fuel HR Hf).
+  apply (iterate_list (next rd fuel) (inorder t) (next_succ rd t fuel HR Hnd Hf) (inorder t) []);
+    [reflexivity|]. fold (ids t). rewrite size_length_ids. assumption.
+Qed.
+
+Lemma pre_foreach_fwd : pre_foreach rd fuel (root_id t) = Ok (preorder t).
+Proof.
+  unfold pre_foreach, bind_iter.
+  replace (root_id t) with (hd_error (preorder t)) by (destruct t; reflexivity).
+  apply (iterate_list (pre_next rd fuel) (preorder t) (pre_next_succ rd t fuel HR Hnd Hf) (preorder t) []);
+    [reflexivity|]. rewrite length_pre. assumption.
+Qed.
+
+Lemma post_foreach_fwd : post_foreach rd fuel (root_id t) = Ok (postorder t).
+Proof.
+  unfold post_foreach, bind_iter. rewrite (post_head_first rd t fuel HR Hf).
+  apply (iterate_list (post_next rd fuel) (postorder t) (post_next_succ rd t fuel HR Hnd Hf) (postorder t) []);
+    [reflexivity|]. rewrite length_post. assumption.
+Qed.
+
+(* from ANY node the iteration yields the corresponding suffix *)
+Lemma iterate_next_from : forall pre x post, inorder t = pre ++ x :: post ->
+  iterate (next rd fuel) fuel (Some x) = Ok (x :: post).
+Proof.
+  intros pre x post E0.
+  apply (iterate_list (next rd fuel) (inorder t) (next_succ rd t fuel HR Hnd Hf) (x :: post) pre fuel E0).
+  assert (L : length (inorder t) = size t) by apply size_length_ids.
+  rewrite E0, app_length in L. lia.
+Qed.
+
+Lemma iterate_pre_next_from : forall pre x post, preorder t = pre ++ x :: post ->
+  iterate (pre_next rd fuel) fuel (Some x) = Ok (x :: post).
+Proof.
+  intros pre x post E0.
+  apply (iterate_list (pre_next rd fuel) (preorder t) (pre_next_succ rd t fuel HR Hnd Hf) (x :: post) pre fuel E0).
+  pose proof (length_pre t) as L. rewrite E0, app_length in L. lia.
+Qed.
+
+Lemma iterate_post_next_from : forall pre x post, postorder t = pre ++ x :: post ->
+  iterate (post_next rd fuel) fuel (Some x) = Ok (x :: post).
+Proof.
+  intros pre x post E0.
+  apply (iterate_list (post_next rd fuel) (postorder t) (post_next_succ rd t fuel HR Hnd Hf) (x :: post) pre fuel E0).
+  pose proof (length_post t) as L. rewrite E0, app_length in L. lia.
+Qed.
+
+End Forward.
+
+Section Backward.
+Variable rd : id -> option node.
+Variable t : tree.
+Variable fuel : nat.
+Hypothesis HR : Repr rd None t.
+Hypothesis Hnd : NoDup (ids t).
+Hypothesis Hf : size t < fuel.
+
+Let HRm : Repr (mrd rd) None (mirror t) := repr_mirror rd t None HR.
+Let Hndm : NoDup (ids (mirror t)) := nodup_mirror t Hnd.
+Let Hfm : size (mirror t) < fuel.
+Proof. rewrite size_mirror. exact Hf. Qed.
+
+Lemma foreach_bwd : foreach_reverse rd fuel (root_id t) = Ok (rev (inorder t)).
+Proof.
+  rewrite foreach_reverse_mirror, <- root_mirror, <- inorder_mirror.
+  apply foreach_fwd; assumption.
+Qed.
+
+Lemma pre_foreach_bwd : pre_foreach_reverse rd fuel (root_id t) = Ok (preorder_rl t).
+Proof.
+  rewrite pre_foreach_reverse_mirror, <- root_mirror, <- preorder_mirror.
+  apply pre_foreach_fwd; assumption.
+Qed.
+
+Lemma post_foreach_bwd : post_foreach_reverse rd fuel (root_id t) = Ok (postorder_rl t).
+Proof.
+  rewrite post_foreach_reverse_mirror, <- root_mirror, <- postorder_mirror.
+  apply post_foreach_fwd; assumption.
+Qed.
+
+Lemma prev_succ : forall pre x post,
+  rev (inorder t) = pre ++ x :: post -> prev rd fuel x = Ok (hd_error post).
+Proof.
+  intros pre x post E0. rewrite prev_mirror. rewrite <- inorder_mirror in E0.
+  exact (next_succ (mrd rd) (mirror t) fuel HRm Hndm Hfm pre x post E0).
+Qed.
+
+Lemma pre_prev_succ : forall pre x post,
+  preorder_rl t = pre ++ x :: post -> pre_prev rd fuel x = Ok (hd_error post).
+Proof.
+  intros pre x post E0. rewrite pre_prev_mirror. rewrite <- preorder_mirror in E0.
+  exact (pre_next_succ (mrd rd) (mirror t) fuel HRm Hndm Hfm pre x post E0).
+Qed.
+
+Lemma post_prev_succ : forall pre x post,
+  postorder_rl t = pre ++ x :: post -> post_prev rd fuel x = Ok (hd_error post).
+Proof.
+  intros pre x post E0. rewrite post_prev_mirror. rewrite <- postorder_mirror in E0.
+  exact (post_next_succ (mrd rd) (mirror t) fuel HRm Hndm Hfm pre x post E0).
+Qed.
+
+Lemma iterate_prev_from : forall pre x post, rev (inorder t) = pre ++ x :: post ->
+  iterate (prev rd fuel) fuel (Some x) = Ok (x :: post).
+Proof.
+  intros pre x post E0.
+  rewrite (iterate_ext _ _ (prev_mirror rd fuel)). rewrite <- inorder_mirror in E0.
+  exact (iterate_next_from (mrd rd) (mirror t) fuel HRm Hndm Hfm pre x post E0).
+Qed.
+
+Lemma iterate_pre_prev_from : forall pre x post, preorder_rl t = pre ++ x :: post ->
+  iterate (pre_prev rd fuel) fuel (Some x) = Ok (x :: post).
+Proof.
+  intros pre x post E0.
+  rewrite (iterate_ext _ _ (pre_prev_mirror rd fuel)). rewrite <- preorder_mirror in E0.
+  exact (iterate_pre_next_from (mrd rd) (mirror t) fuel HRm Hndm Hfm pre x post E0).
+Qed.
+
+Lemma iterate_post_prev_from : forall pre x post, postorder_rl t = pre ++ x :: post ->
+  iterate (post_prev rd fuel) fuel (Some x) = Ok (x :: post).
+Proof.
+  intros pre x post E0.
+  rewrite (iterate_ext _ _ (post_prev_mirror rd fuel)). rewrite <- postorder_mirror in E0.
+  exact (iterate_post_next_from (mrd rd) (mirror t) fuel HRm Hndm Hfm pre x post E0).
+Qed.
+
+(* successor and predecessor steps are mutually inverse *)
+Lemma next_then_prev : forall x y, In x (ids t) ->
+  next rd fuel x = Ok (Some y) -> prev rd fuel y = Ok (Some x).
+Proof.
+  intros x y Hin Hn. unfold ids in Hin.
+  destruct (in_split _ _ Hin) as [pre [post E0]].
+  rewrite (next_succ rd t fuel HR Hnd Hf pre x post E0) in Hn.
+  destruct post as [|y' post]; simpl in Hn; [discriminate|]. inversion Hn; subst y'.
+  apply (prev_succ (rev post) y (x :: rev pre)).
+  rewrite E0, rev_app_distr. simpl. rewrite <- !app_assoc. reflexivity.
+Qed.
+
+Lemma prev_then_next : forall x y, In y (ids t) ->
+  prev rd fuel y = Ok (Some x) -> next rd fuel x = Ok (Some y).
+Proof.
+  intros x y Hin Hp. unfold ids in Hin.
+  destruct (in_split _ _ Hin) as [pre [post E0]].
+  assert (E1 : rev (inorder t) = rev post ++ y :: rev pre).
+  { rewrite E0, rev_app_distr. simpl. rewrite <- app_assoc. reflexivity. }
+  rewrite (prev_succ (rev post) y (rev pre) E1) in Hp.
+  destruct (rev pre) as [|x' q] eqn:Eq; simpl in Hp; [discriminate|]. inversion Hp; subst x'.
+  assert (E2 : pre = rev q ++ [x]).
+  { rewrite <- (rev_involutive pre), Eq. reflexivity. }
+  apply (next_succ rd t fuel HR Hnd Hf (rev q) x (y :: post)).
+  rewrite E0, E2, <- app_assoc. reflexivity.
+Qed.
+
+(* a step from a node of the tree is never Stuck / OutOfFuel and stays inside the tree *)
+Lemma next_total : forall x, In x (ids t) ->
+  exists o, next rd fuel x = Ok o /\ match o with Some y => In y (ids t) | None => True end.
+Proof.
+  intros x Hin. unfold ids in Hin. destruct (in_split _ _ Hin) as [pre [post E0]].
+  exists (hd_error post). split; [apply (next_succ rd t fuel HR Hnd Hf pre x post E0)|].
+  destruct post as [|y post]; simpl; [exact I|].
+  unfold ids. rewrite E0. apply in_or_app. right. right. left. reflexivity.
+Qed.
+
+End Backward.
